@@ -1132,8 +1132,8 @@ def monitor(case: str, out: str) -> list[str]:
                         causes.add("stream.unstarted.scope-never-completes")
                     elif ss.ended_by == "closed" and ss.open_at_close == "nested":
                         causes.add("stream.closed.nested-stream-never-completes")
-                    elif ss.ended_by == "closed" and ss.open_at_close == "block":
-                        causes.add("stream.closed.scope-never-completes")  # repaired: a regression if it shows again
+                    # (closed while suspended inside a block of its own is repaired: no longer a cause – if it ever
+                    #  fails to complete again it is reported as `stream.scope-not-completed`)
             if causes:
                 for c in causes:
                     flag(c, first, "events")
